@@ -257,7 +257,10 @@ def lean_obligations(rep, pid, tier):
 def run_stream(rep, repo, name, cases, project=None, stall_s=20, keep_lines=None, impl_only=False):
     """Run `cases` (iterable of case lines) on both executors.  Returns (impl_obs, model_obs, incidents,
     case_by_id).  `project(line) -> str|None` selects / reduces the observables the property is about."""
-    d = os.path.join(WORK, rep.pid)
+    # one working directory per property, tree and tier, so that checks of different trees (./selftest) or tiers can
+    # run side by side
+    key = core.repo_key(repo)
+    d = os.path.join(WORK, rep.pid if key == "default" and rep.tier == "quick" else "%s-%s-%s" % (rep.pid, key, rep.tier))
     os.makedirs(d, exist_ok=True)
     cpath = os.path.join(d, name + ".cases")
     n = 0
